@@ -183,6 +183,37 @@ def synthetic_events():
             ev.append({"kind": "hdr", "flat": [[a, _val(b, {})] for a, b in flat.items() if _fits_representable(b)],
                        "header": [[a, _val(hdr[a], {})] for a in hdr.keys() if str(a).startswith("Config")],
                        "_m": {"sequence_on_one_path": k, "nflat": len(flat)}})
+        # ONE configuration object edited in place between runs (an energy scan, what the CLI overrides do): every table must carry
+        # the configuration as it is NOW, and reload to it
+        from nuspacesim.config import Simulation
+        live = pipeline.make_config({"spectrum": "mono", "log_e": 8.0})
+        edits = [lambda c: None,
+                 lambda c: setattr(c.simulation.spectrum, "log_nu_energy", 9.5),
+                 lambda c: setattr(c.simulation, "thrown_events", 250),
+                 lambda c: setattr(c.simulation, "spectrum", Simulation.PowerSpectrum(index=0.0, lower_bound=6.5, upper_bound=10.0)),
+                 lambda c: setattr(c.detector.radio, "snr_threshold", 0.0),
+                 lambda c: setattr(c, "title", "edited in place"),
+                 lambda c: setattr(c.simulation.spectrum, "index", 2.5)]
+        for k, edit in enumerate(edits):
+            edit(live)
+            tk = rt.init(live)
+            tk.add_columns([rng.random(3)], names=["beta_rad"])
+            pth = os.path.join(d, f"live{k}.fits")
+            tk.write(pth, format="fits", overwrite=True)
+            try:
+                rec = config_from_fits(pth)
+                fc, fr = dict(flat_attrs(live)), dict(flat_attrs(rec))
+                ang = lambda n: n.split(".")[-1] in ANGLE_FIELDS
+                ev.append({"kind": "recon", "ok": True, "cfg": [[a, _val(b, {}, ang(a))] for a, b in fc.items() if b is not None],
+                           "recon": [[a, _val(b, {}, ang(a))] for a, b in fr.items() if b is not None],
+                           "_m": {"config_object_edited_in_place": k}})
+            except Exception as ex:
+                ev.append({"kind": "recon", "ok": False, "cfg": [], "recon": [], "_m": {"config_object_edited_in_place": k, "error": repr(ex)[:300]}})
+            hdr = _fits.getheader(pth, 1)
+            flat = flat_config(live.model_dump())
+            ev.append({"kind": "hdr", "flat": [[a, _val(b, {})] for a, b in flat.items() if _fits_representable(b)],
+                       "header": [[a, _val(hdr[a], {})] for a in hdr.keys() if str(a).startswith("Config")],
+                       "_m": {"config_object_edited_in_place": k, "nflat": len(flat)}})
         for name, t in cases:
             path = os.path.join(d, name + ".fits")
             t.write(path, format="fits", overwrite=True)
